@@ -99,7 +99,7 @@ def slice_events(darsia, rng, shape, table, tid):
         # harness' own (origin + sign * (q + 1/2) * voxel size), not one read back from the image
         m_of_c = [m for m in range(n) if table[m][0] - 1 == c][0]
         sgn_c = table[m_of_c][1]
-        for q in range(shape[m_of_c]):
+        for q in (range(shape[m_of_c]) if not suffix else sorted({0, shape[m_of_c] - 1})):     # (after relocation: the two end cuts)
             byindex, byindexmeta = [], []
             for m in range(n):
                 if q < shape[m]:
@@ -206,6 +206,8 @@ def run(ck, replay=None):
     tables = {len(s): t for s, t in scn.items()}
     darsia = import_darsia()
     rng = random.Random(ck.seed)
+    from checks.common import axis_twins
+    ck.cov["twin_object_histories"] = axis_twins(ck, darsia, "C20", ck.tier == "quick")
     events = [helper_tables(darsia, n, tables[n], rng) for n in (1, 2, 3)]
     shapes = sorted(scn)
     if ck.tier == "thorough":
@@ -219,7 +221,8 @@ def run(ck, replay=None):
             events += slice_events(darsia, rng, s, tables[len(s)], f"axes:{sid}")
     # observed executions: every distinct interpret_indexing call made while the repository's own unit tests run
     # (images, coordinate systems, arithmetic, patches, grids all go through it) - recorded by lib/suite_recorder.py
-    events += ck.record_suite("axes", ["test_image.py", "test_coordinatesystem.py", "test_patches.py", "test_arithmetics.py", "test_dimension_reduction.py", "test_subregion.py"]
+    events += ck.record_suite("axes", ["test_image.py", "test_coordinatesystem.py", "test_patches.py", "test_arithmetics.py", "test_dimension_reduction.py", "test_subregion.py",
+                               "-knot test_initialize_optical_image"]       # (that one test takes 23 s; the thorough tier runs everything)
                               if ck.tier == "quick" else ["."])
     bad = ck.validate("Trace_Axes", "Trace.cfg", events, chunk=300)
     for b in bad:
